@@ -15,6 +15,8 @@ def layout(root):
                      ' abs = import %s/abs.nix; paren = import (./sib.nix); v = "entry"; bad = import "str"; angle = import <nixpkgs>;'
                      ' missing = import ./nope.nix; dot = import ./sub/../sib.nix;'
                      # relative path literals without a leading ./ (a Nix path literal only needs a slash)
+                     # other spellings of the application: line break, tab, no blank, a comment between keyword and path
+                     ' nl = import\n    ./sib.nix; tab = import\t./sib.nix; tight = import(./sib.nix); cmt = import /* c */ ./sib.nix; cmt2 = import/* c */./sub/child.nix;'
                      ' bare = import sub/child.nix; barechain = import sub/bare1.nix; baregone = import sub/nope.nix; }\n' % root,
         "sib.nix": '{ v = "sib"; }\n',
         "abs.nix": '{ v = "abs"; }\n',
@@ -48,6 +50,7 @@ LOOKUPS = [
     (["sib", "v"], '"sib"'), (["child", "v"], '"child"'), (["child", "sibling", "v"], '"child2"'), (["up", "parent", "v"], '"sib"'),
     (["chain", "next", "next", "next", "v"], '"chain4"'), (["chain", "next", "v"], '"chain2"'), (["abs", "v"], '"abs"'),
     (["paren", "v"], '"sib"'), (["dot", "v"], '"sib"'),
+    (["nl", "v"], '"sib"'), (["tab", "v"], '"sib"'), (["tight", "v"], '"sib"'), (["cmt", "v"], '"sib"'), (["cmt2", "v"], '"child"'),
     (["bare", "v"], '"child"'), (["barechain", "next", "v"], '"bare2"'), (["baregone", "v"], OSError),
     (["bad", "v"], TypeError), (["angle", "v"], ValueError), (["missing", "v"], OSError),
 ]
@@ -324,7 +327,7 @@ def run(tier, seed):
     n = (len(items) + len(citems)) * len(LOOKUPS) + len(sitems) + 3 * len(bitems)
     return dict(evaluations=n, distinct_nontrivial=n,
                 rule="a generated directory tree (sibling, child, parent, ./ and ../, absolute, parenthesised, chains of 1-4 hops through three "
-                     "directories, decoy files of the same names elsewhere) x 4 working directories x 3 spellings of the entry path x 12 lookups "
+                     "directories, decoy files of the same names elsewhere) x 4 working directories x 3 spellings of the entry path x 20 lookups "
                      "incl. the three error cases; plus a directory reached through a symbolic link (3 working directories x 2 spellings x 3 variants) and importing files of 4 / 20 / 45 KiB (3 x 2 x 3)",
                 samples=[dict(cwd=i[0], entry=i[1]) for i in items[:3]], exhaustive=True, violations=vio, seconds=time.time() - t0)
 
